@@ -100,6 +100,9 @@ func cmdStress(args []string) int {
 				continue
 			}
 			v := lo + r.Int63n(hi-lo+1)
+			if r.Intn(3) == 0 {
+				v = lo // the oldest retained version: its root may be shared with the versions being deleted
+			}
 			want := expected[v]
 			reading[v]++
 			isLatest := v == latestV
@@ -218,7 +221,11 @@ func cmdStress(args []string) int {
 	shadow := map[string]string{}
 	pinViol := ""
 	for round := 0; round < *rounds && viol.Load() == nil; round++ {
-		for i := 0; i < 1+wr.Intn(6); i++ {
+		nw := 1 + wr.Intn(6)
+		if wr.Intn(4) == 0 {
+			nw = 0 // a commit without writes: the new version refers to the previous root
+		}
+		for i := 0; i < nw; i++ {
 			k := pool[wr.Intn(len(pool))]
 			if wr.Intn(3) == 0 {
 				_, _, _ = tree.Remove(k)
